@@ -234,3 +234,63 @@ fn c03_table_one_row_per_address() {
         None => vassert!(false, "C03: no row stored under the frame's address"),
     }
 }
+
+// @harness props=C03 tier=manual cap=3600
+// table KEY, cheap: a DF17 then a DF18 squitter of ONE address into an empty table, where only what a table
+// key can depend on is symbolic - the 24-bit address (every non-zero value), the DF18 CF field (all 8), the
+// DF17 CA field (all 8), -U / -R - and the ME field is the fixed uninterpreted type code 28 (so the row
+// decoders run on mostly concrete data): exactly one row, stored under and carrying the 24-bit address
+#[cfg_attr(kani, kani::proof)]
+#[cfg_attr(kani, kani::unwind(33))]
+#[cfg_attr(kani, kani::stub(chrono::Utc::now, crate::verif::rt::stub_now))]
+#[cfg_attr(kani, kani::stub(crate::decoder::get_downlink_format, crate::decoder::vh::rows::stub_get_df))]
+#[cfg_attr(kani, kani::stub(crate::decoder::utils::get_message_type, crate::decoder::vh::rows::stub_get_tc))]
+#[cfg_attr(kani, kani::stub(crate::decoder::country::country_icao_mask::icao_to_country, stub_country))]
+#[cfg_attr(verif_replay, test)]
+fn c03_table_key_df17_df18() {
+    let x = any_below(1 << 24);
+    assume(x != 0);
+    let ca = any_below(8);
+    let cf = any_below(8);
+    let use_update = any_bool();
+    let relaxed = any_bool();
+    let mut a: Vec<u32> = vec![0; 28];
+    let mut b: Vec<u32> = vec![0; 28];
+    a[0] = 8;
+    a[1] = 8 | ca;
+    b[0] = 9;
+    b[1] = cf;
+    a[2] = (x >> 20) & 15;
+    a[3] = (x >> 16) & 15;
+    a[4] = (x >> 12) & 15;
+    a[5] = (x >> 8) & 15;
+    a[6] = (x >> 4) & 15;
+    a[7] = x & 15;
+    b[2] = a[2];
+    b[3] = a[3];
+    b[4] = a[4];
+    b[5] = a[5];
+    b[6] = a[6];
+    b[7] = a[7];
+    a[8] = 0xE;
+    b[8] = 0xE;
+    let args = mk_args(use_update, relaxed, 0);
+    let mut planes = Planes::new();
+    unsafe {
+        PIN_DF = 17;
+        PIN_TC = 28;
+    }
+    let da = downlink_of(&a, 1);
+    planes.update_aircraft(&da, &a, 17, x, &args);
+    unsafe { PIN_DF = 18 };
+    let db = downlink_of(&b, 0);
+    planes.update_aircraft(&db, &b, 18, x, &args);
+    let t = planes.aircrafts.read().unwrap();
+    vcover!(cf == 1, "DF18 with CF=1");
+    vcover!(cf == 5 && use_update, "DF18 with CF=5, -U");
+    vassert!(t.len() == 1, "C03: two frames of one address do not end up in exactly one row");
+    match t.get(&x) {
+        Some(r) => vassert!(r.icao == x, "C03: the row stored under the address carries another address"),
+        None => vassert!(false, "C03: no row stored under the frame's address"),
+    }
+}
